@@ -923,6 +923,22 @@ def _silent_payments(ctx: Ctx) -> None:
             pubs = [(sp.pub_key_from_input(x.spk, x.script_sig, x.witness), x.spk) for x in inputs]
             pubs = [(Q, spk) for Q, spk in pubs if Q is not None]
             labels = sp.label_lookup(r.b_scan, sorted({0, *r.labels})) if r.labels or ch.draw(2, "change-label") else None
+            if labels is not None and len(labels) > 1 and ch.draw(3, "labels.grown") == 2:
+                # a wallet's label cache is built once and grows when the wallet hands out a new label: the map is a dict
+                # (`dict[bytes, bytes]`, "once per wallet"), and a dict that grew is the dict the scan is owed answers from
+                ms = ch.shuffled(sorted({0, *r.labels}), "labels.order")
+                cut = 1 + ch.draw(len(ms) - 1, "labels.cut")
+                labels = sp.label_lookup(r.b_scan, ms[:cut])
+                how = ch.pick(["update", "setitem", "ior"], "labels.how")
+                later = sp.label_lookup(r.b_scan, ms[cut:])
+                if how == "update":
+                    labels.update(later)
+                elif how == "setitem":
+                    for k in sorted(later):
+                        labels[k] = later[k]
+                else:
+                    labels |= later
+                ctx.fault("label-map-grown-in-place", how)
             full = sp.scan_transaction_outputs(r.b_scan, mult(r.b_spend), outpoints, pubs, outputs, labels)
             a_sum: Any = sp.pub_key_sum([Q for Q, _ in pubs])
             # what a server hands a light client is one public key, in whatever spelling of it: a PubKey is a point,
